@@ -1298,6 +1298,14 @@ def _inline_local_closures(mods: dict[str, Module], log: list[str]) -> None:
                         name = params = expr = None
                         if isinstance(st, ast.FunctionDef) and st is not fn and not st.decorator_list and not st.args.vararg and not st.args.kwarg and not st.args.kwonlyargs:
                             body = [b for b in st.body if not (isinstance(b, ast.Expr) and isinstance(b.value, ast.Constant))]
+                            # a parameterless local generator `def g(): for x in xs: yield e` is the generator expression `(e for x in xs)`
+                            if len(body) == 1 and isinstance(body[0], ast.For) and not body[0].orelse and len(body[0].body) == 1 and isinstance(body[0].body[0], ast.Expr) \
+                                    and isinstance(body[0].body[0].value, ast.Yield) and body[0].body[0].value.value is not None and not st.args.args and not st.args.posonlyargs:
+                                lp_ = body[0]
+                                name, params = st.name, []
+                                expr = ast.GeneratorExp(elt=lp_.body[0].value.value, generators=[ast.comprehension(target=lp_.target, iter=lp_.iter, ifs=[], is_async=0)])
+                                defaults = {}
+                                body = []
                             if len(body) == 1 and isinstance(body[0], ast.Return) and body[0].value is not None:
                                 name, params, expr = st.name, [a.arg for a in [*st.args.posonlyargs, *st.args.args]], body[0].value
                                 defaults = dict(zip(params[len(params) - len(st.args.defaults):], st.args.defaults)) if st.args.defaults else {}
